@@ -84,7 +84,7 @@ def in_domain(filters):
 
 class Complete(Sub):
     name = "complete"
-    examples = {"quick": 2400, "thorough": 80000}
+    examples = {"quick": 2400, "thorough": 19200}
     shards = {"quick": 16, "thorough": 16}
     rule = RULE
 
@@ -151,7 +151,7 @@ class ForcedIndex(Sub):
     """LMDB: execute the filter through every single index able to serve it."""
 
     name = "forced-index"
-    examples = {"quick": 1600, "thorough": 50000}
+    examples = {"quick": 1600, "thorough": 12800}
     shards = {"quick": 8, "thorough": 16}
     rule = ("one store x one well-formed filter, executed once per eligible LMDB index "
             "(ids, kinds, authors, author+kind, tags, created_at) via hand-built QueryPlans; "
